@@ -208,7 +208,7 @@ def engine_receivers(prog: Program) -> list[tuple[FuncInfo, str, str]]:
     return out
 
 
-def ecc(ctx: Ctx, rule: str, only_class: str | None = None) -> int:
+def ecc(ctx: Ctx, rule: str, only_class: str | None = None, methods: set[str] | None = None) -> int:
     """Engine-call contract: every argument of every call on an engine object has the role the reader expects."""
     prog = ctx.prog
     check_reader_table(ctx, rule)
@@ -229,6 +229,8 @@ def ecc(ctx: Ctx, rule: str, only_class: str | None = None) -> int:
                 if not (isinstance(c, ast.Call) and isinstance(c.func, ast.Attribute) and unparse(c.func.value) == rtext):
                     continue
                 m = c.func.attr
+                if methods is not None and m not in methods:
+                    continue
                 construct = f'{g.qualname}:{rtext}.{m}'
                 if m not in ENGINE_API[ecls]:
                     ctx.add(rule, construct, False, (g.file, c.lineno), f'{ecls} has no method {m}', m)
@@ -310,3 +312,218 @@ def fwd(ctx: Ctx, rule: str) -> int:
                                     f'{call_name(c)}(..{a.id}..) binds parameter {ps[i]}' + ('' if ok else ' - a different flag'),
                                     detail=f'{ps[i]}={a.id}')
     return n
+
+
+# --------------------------------------------------------------------------
+# ORD - canonical parameter order
+
+NAMES_RE = re.compile(r'^(?P<recv>.*?)\.?(?P<kind>free|fixed)_betas\.names$')
+EXPR_RE = re.compile(r'(?P<recv>[\w.]*?)\.?(?P<kind>free|fixed)_betas\.expressions')
+
+
+def _names_kind(text: str) -> tuple[str, str] | None:
+    m = NAMES_RE.match(text)
+    if m:
+        return m.group('recv'), m.group('kind')
+    if text in ('self.free_beta_names',):
+        return 'self.id_manager', 'free'
+    return None
+
+
+def _enclosing_loops(tree: ast.AST):
+    """yield (node, [(target names, iter expr)]) for every node with the loops/comprehensions around it"""
+    def rec(n, stack):
+        yield n, stack
+        if isinstance(n, (ast.ListComp, ast.SetComp, ast.GeneratorExp, ast.DictComp)):
+            st = list(stack)
+            for g in n.generators:
+                st = st + [({x.id for x in ast.walk(g.target) if isinstance(x, ast.Name)}, g.iter, n)]
+            for ch in ast.iter_child_nodes(n):
+                yield from rec(ch, st)
+            return
+        if isinstance(n, ast.For):
+            st = stack + [({x.id for x in ast.walk(n.target) if isinstance(x, ast.Name)}, n.iter, n)]
+            yield from rec(n.iter, stack)
+            for ch in n.body + n.orelse:
+                yield from rec(ch, st)
+            return
+        for ch in ast.iter_child_nodes(n):
+            yield from rec(ch, stack)
+
+    yield from rec(tree, [])
+
+
+def ord_pack(ctx: Ctx, rule: str) -> None:
+    prog = ctx.prog
+    # O1 / O2 over the whole package
+    for f in prog.all_functions():
+        if f.parent is not None:
+            continue
+        for n, stack in _enclosing_loops(f.node):
+            # O1: positional structure built from dict order of the per-kind table
+            if isinstance(n, (ast.ListComp, ast.GeneratorExp)) or (isinstance(n, ast.For)):
+                gens = n.generators if not isinstance(n, ast.For) else [n]
+                for g in gens:
+                    it = unparse(g.iter)
+                    m = EXPR_RE.search(it)
+                    if m and re.search(r'_betas\.expressions(\.values\(\)|\.items\(\)|\.keys\(\))?$', it):
+                        positional = not isinstance(n, ast.For) or any(
+                            isinstance(x, ast.Call) and isinstance(x.func, ast.Attribute) and x.func.attr == 'append' for b in n.body for x in ast.walk(b)
+                        )
+                        if positional:
+                            ctx.add(rule, f'{f.qualname}:appearance-order', False, (f.file, n.lineno),
+                                    f'a positional sequence is built by iterating {it}: the order of a dictionary of parameters is their order of appearance in the formula, '
+                                    f'not the canonical (sorted) order of {m.group("kind")}_betas.names', detail=it)
+            # O2: table lookups by loop variable
+            if isinstance(n, ast.Subscript):
+                t = unparse(n.value)
+                m = re.fullmatch(r'(?P<recv>.*?)\.?(?P<kind>free|fixed)_betas\.expressions', t)
+                if m and isinstance(n.slice, ast.Name):
+                    v = n.slice.id
+                    src = next(((names, it, owner) for names, it, owner in reversed(stack) if v in names), None)
+                    if src is None:
+                        continue
+                    itx = src[1]
+                    if isinstance(itx, ast.Call) and call_name(itx) == 'enumerate' and itx.args:
+                        itx = itx.args[0]
+                    nk = _names_kind(unparse(itx))
+                    positional = isinstance(src[2], (ast.ListComp, ast.GeneratorExp, ast.For))
+                    if not positional:
+                        continue
+                    ok = nk is not None and nk[1] == m.group('kind') and nk[0] == m.group('recv')
+                    ctx.add(rule, f'{f.qualname}:{m.group("kind")}_betas.expressions[{v}]', ok, (f.file, n.lineno),
+                            f'{t}[{v}] with {v} ranging over {unparse(src[1])}' + ('' if ok else f'; a per-parameter vector must follow {m.group("recv")}.{m.group("kind")}_betas.names'),
+                            detail=f'{t}[{v}] over {unparse(src[1])}')
+
+    def stmt_assigning(f: FuncInfo, target: str) -> list[ast.stmt]:
+        return [n for n in walk_no_nested(f.node) if isinstance(n, (ast.Assign, ast.AnnAssign)) and any(unparse(t) == target for t in (n.targets if isinstance(n, ast.Assign) else [n.target]))]
+
+    def comp_over(f: FuncInfo, target: str, names_text: str, elt_re: str, what: str):
+        ss = stmt_assigning(f, target)
+        construct = f'{f.qualname}:{target}'
+        if not ss:
+            raise AnalysisError(f'{rule}: {f.qualname} no longer assigns {target}')
+        for s in ss:
+            v = s.value
+            if isinstance(v, ast.Constant) and v.value is None:
+                continue
+            if not isinstance(v, ast.ListComp) or len(v.generators) != 1:
+                ctx.add(rule, construct, False, (f.file, s.lineno), f'{target} is not built by one comprehension over {names_text}: {unparse(v)[:80]}', unparse(v))
+                continue
+            g = v.generators[0]
+            x = unparse(g.target)
+            ok = unparse(g.iter) == names_text and not g.ifs and re.fullmatch(elt_re.replace('X', re.escape(x)), unparse(v.elt).replace('\n', ' ')) is not None
+            ctx.add(rule, construct, ok, (f.file, s.lineno), f'{target} = [{what} for each name of {names_text}]' if ok else f'{target} = {unparse(v)[:120]}', detail=unparse(v))
+
+    prep = prog.func('expressions.idmanager', 'IdManager.prepare')
+    comp_over(prep, 'self.bounds', 'self.free_betas.names', r'\(self\.free_betas\.expressions\[X\]\.lb, self\.free_betas\.expressions\[X\]\.ub\)', '(lb, ub) of that parameter')
+    comp_over(prep, 'self.free_betas_values', 'self.free_betas.names', r'self\.free_betas\.expressions\[X\]\.initValue', 'initValue of that parameter')
+    comp_over(prep, 'self.fixed_betas_values', 'self.fixed_betas.names', r'self\.fixed_betas\.expressions\[X\]\.initValue', 'initValue of that parameter')
+    gv = prog.func('expressions.base_expressions', 'Expression.get_value_and_derivatives')
+    bp = 'betas'
+    comp_over(gv, 'self.id_manager.free_betas_values', 'self.id_manager.free_betas.names',
+              rf'{bp}\[X\] if X in {bp} else self\.id_manager\.free_betas\.expressions\[X\]\.initValue', 'betas[name] when given, else the initValue of the same name')
+    # free-first numbering
+    cat = stmt_assigning(prep, 'elementary_expressions_names')
+    ok = False
+    det = ''
+    if len(cat) == 1:
+        det = unparse(cat[0].value)
+        parts = [p.strip() for p in det.replace('\n', ' ').split('+')]
+        ok = parts[:1] == ['self.free_betas.names'] and sorted(parts) == sorted(['self.free_betas.names', 'self.fixed_betas.names', 'self.random_variables.names', 'self.draws.names', 'self.variables.names'])
+    ctx.add(rule, 'IdManager.prepare:free-first', ok, prep, 'global numbering = free + fixed + random variables + draws + variables, free parameters first (the engine differentiates w.r.t. literal ids 0..n-1)' if ok else f'global numbering is {det[:150]}', det)
+    idx = stmt_assigning(prep, 'elementary_expressions_indices')
+    ok = len(idx) == 1 and unparse(idx[0].value) == '{v: i for i, v in enumerate(elementary_expressions_names)}'
+    ctx.add(rule, 'IdManager.prepare:indices', ok, prep, 'unique index = position in that concatenation' if ok else f'unique indices: {unparse(idx[0].value) if idx else "missing"}', unparse(idx[0].value) if idx else '')
+    eni = prog.func('expressions.idmanager', 'expressions_names_indices')
+    body = ' ; '.join(unparse(x) for x in eni.body)
+    pn = eni.positional_params()[0]
+    ok = f'names = sorted({pn})' in body and 'for i, v in enumerate(names):\n    indices[v] = i' in body and 'indices=indices' in body and 'names=names' in body and f'expressions={pn}' in body
+    ctx.add(rule, 'expressions_names_indices', ok, eni, 'names are sorted and indices[name] is the position in that sorted list' if ok else 'the canonical order is no longer the sorted list of names with indices = enumerate(names)', body[:160])
+    # BIOGEME sites
+    B = prog.cls('biogeme', 'BIOGEME')
+    f = B.methods['change_init_values']
+    loops = [n for n in walk_no_nested(f.node) if isinstance(n, ast.For) and 'enumerate' in unparse(n.iter)]
+    ok = False
+    det = ''
+    if len(loops) == 1:
+        lp = loops[0]
+        det = unparse(lp)
+        if unparse(lp.iter) == 'enumerate(self.id_manager.free_betas.names)' and isinstance(lp.target, ast.Tuple):
+            i, nm = (unparse(x) for x in lp.target.elts)
+            txt = ' ; '.join(unparse(s) for s in lp.body)
+            m = re.fullmatch(rf'(\w+) = betas\.get\({nm}\) ; if \1 is not None:\n    self\.id_manager\.free_betas_values\[{i}\] = \1', txt)
+            ok = m is not None
+    ctx.add(rule, 'BIOGEME.change_init_values', ok, f, 'free_betas_values[i] = betas[name] for (i, name) in enumerate(free_betas.names)' if ok else f'update of free_betas_values: {det[:150]}', det)
+    f = B.methods['beta_values_dict_to_list']
+    loops = [n for n in walk_no_nested(f.node) if isinstance(n, ast.For) and unparse(n.iter) == 'self.id_manager.free_betas.names']
+    ok = False
+    det = ''
+    for lp in loops:
+        x = unparse(lp.target)
+        apps = [c for c in ast.walk(lp) if isinstance(c, ast.Call) and isinstance(c.func, ast.Attribute) and c.func.attr == 'append']
+        if len(apps) == 1:
+            det = unparse(lp)
+            val = unparse(apps[0].args[0])
+            defs = [s for s in lp.body if isinstance(s, ast.Assign) and unparse(s.targets[0]) == val]
+            lst = unparse(apps[0].func.value)
+            ok = len(defs) == 1 and unparse(defs[0].value) in (f'beta_dict.get({x})', f'beta_dict[{x}]') and unparse(f.body[-1]) == f'return {lst}' and any(
+                isinstance(r, ast.Raise) for r in ast.walk(lp))
+    ctx.add(rule, 'BIOGEME.beta_values_dict_to_list', ok, f, 'the list follows free_betas.names, element = beta_dict[name], missing name refused' if ok else f'conversion dict -> list: {det[:150]}', det)
+    f = B.methods['calculate_likelihood_and_derivatives']
+    loops = [n for n in walk_no_nested(f.node) if isinstance(n, ast.For) and unparse(n.iter) == 'enumerate(x)']
+    ok = False
+    det = ''
+    if len(loops) == 1 and isinstance(loops[0].target, ast.Tuple):
+        i, v = (unparse(t) for t in loops[0].target.elts)
+        det = ' '.join(unparse(s) for s in loops[0].body)
+        ok = f'self.id_manager.free_betas.names[{i}]' in det
+    ctx.add(rule, 'BIOGEME.calculate_likelihood_and_derivatives:iter-lines', ok, f, 'line i of the iteration file carries free_betas.names[i] and x[i]' if ok else f'iteration file lines: {det[:120]}', det)
+    f = B.methods['report_array']
+    txt = unparse(f.node)
+    ok = 'names = self.free_beta_names' in txt and 'zip(names[:length], array[:length])' in txt
+    ctx.add(rule, 'BIOGEME.report_array', ok, f, 'names and values are paired position by position from free_beta_names' if ok else 'report_array pairing changed', 'report_array')
+    f = B.methods['free_beta_names']
+    ok = unparse(f.body[-1]) == 'return self.id_manager.free_betas.names'
+    ctx.add(rule, 'BIOGEME.free_beta_names', ok, f, 'free_beta_names is free_betas.names' if ok else unparse(f.body[-1]), unparse(f.body[-1]))
+    f = B.methods['get_bounds_on_beta']
+    txt = ' ; '.join(unparse(s) for s in f.body)
+    p = f.positional_params()[1]
+    ok = re.search(rf'(\w+) = self\.id_manager\.free_betas\.indices(\.get\({p}\)|\[{p}\])', txt) is not None and re.search(r'return self\.id_manager\.bounds\[(\w+)\]', txt) is not None
+    if ok:
+        ok = re.search(rf'(\w+) = self\.id_manager\.free_betas\.indices', txt).group(1) == re.search(r'return self\.id_manager\.bounds\[(\w+)\]', txt).group(1)
+    ctx.add(rule, 'BIOGEME.get_bounds_on_beta', ok, f, 'bounds[free_betas.indices[name]]' if ok else f'bounds lookup: {txt[:120]}', txt)
+    f = B.methods['check_derivatives']
+    calls = [c for c in ast.walk(f.node) if isinstance(c, ast.Call) and unparse(c.func).endswith('derivatives.check_derivatives')]
+    ok = len(calls) == 1 and len(calls[0].args) >= 3 and unparse(calls[0].args[2]) == 'self.id_manager.free_betas.names'
+    ctx.add(rule, 'BIOGEME.check_derivatives', ok, f, 'names handed to check_derivatives are free_betas.names' if ok else 'check_derivatives receives other names', unparse(calls[0]) if calls else '')
+    # results
+    R = prog.cls('results', 'RawResults')
+    f = R.methods['__init__']
+    txt = unparse(f.node)
+    names = [unparse(s.value) for s in stmt_assigning(f, 'self.betaNames')]
+    loops = [n for n in walk_no_nested(f.node) if isinstance(n, ast.For) and 'zip(' in unparse(n.iter)]
+    ok = names == ['the_model.id_manager.free_betas.names'] and len(loops) == 1
+    det = ''
+    if ok:
+        lp = loops[0]
+        det = unparse(lp)
+        ok = unparse(lp.iter) == 'zip(beta_values, self.betaNames)' and isinstance(lp.target, ast.Tuple)
+        if ok:
+            v, nm = (unparse(x) for x in lp.target.elts)
+            body = ' ; '.join(unparse(s) for s in lp.body)
+            ok = re.fullmatch(rf'(\w+) = the_model\.get_bounds_on_beta\({nm}\) ; self\.betas\.append\(Beta\({nm}, {v}, \1\)\)', body) is not None
+    ctx.add(rule, 'RawResults.__init__:betas', ok, f, 'value i is paired with free_betas.names[i] and with the bounds looked up by that name' if ok else f'pairing of estimates, names and bounds: {det[:160]}', det)
+    BR = prog.cls('results', 'bioResults')
+    f = BR.methods['get_beta_values']
+    loops = [n for n in walk_no_nested(f.node) if isinstance(n, ast.For)]
+    ok = False
+    det = ''
+    for lp in loops:
+        b = unparse(lp.target)
+        t = unparse(lp)
+        if f'values[{b}]' in t:
+            det = t
+            m = re.search(rf'(\w+) = self\.data\.betaNames\.index\({b}\)', t)
+            ok = m is not None and f'values[{b}] = self.data.betas[{m.group(1)}].value' in t
+    ctx.add(rule, 'bioResults.get_beta_values', ok, f, 'the value of a requested name is betas[betaNames.index(name)]' if ok else f'lookup of estimates by name: {det[:160]}', det)
